@@ -12,6 +12,9 @@ package conf
 // a name promoted from an embedded struct that collides with a name already in the table is ambiguous, whatever
 // the two types are (reflect's FieldByName does not resolve it either) (C03, C16)
 //@   loop 1 body-ensures[collision-ambiguous] head(has(types, name)) ==> types[name].Ambiguous
+// a field declared in the struct itself wins over a promoted one of the same name (Go's selector rule; the VM's
+// FieldByName follows it) (C15, C16)
+//@   loop 0 body-ensures[direct-wins] has(types, f.Name) && types[f.Name].Type == f.Type && !types[f.Name].Ambiguous
 //@ func conf.CreateTypesTable
 //@   property C09 C16
 //@   case map-range: v.MapKeys() is iterated only to insert key -> type into the result map
